@@ -44,6 +44,7 @@ type Options struct {
 	MaxSteps    int
 	BagNetwork  bool // the spec's unordered bag instead of per-link FIFO
 	Small       bool // at most 3 servers and 2 clients (C02: TLC evaluates every step)
+	Quick       bool // with Small: 2-3 servers, 2 clients, buffer 2 (C02 quick tier: few TLC starts)
 }
 
 func S(s string) tla.Value { return tla.MakeString(s) }
@@ -60,6 +61,12 @@ func Run(w *sim.World, opt Options) *Outcome {
 			c = 2
 		}
 	}
+	if opt.Small && opt.Quick {
+		if n < 2 {
+			n = 2
+		}
+		c = 2
+	}
 	maxFail := 0
 	explore := w.Choose(sim.KCfg, 2) == 1 && n >= 3
 	if explore {
@@ -70,6 +77,9 @@ func Run(w *sim.World, opt Options) *Outcome {
 	if opt.Small {
 		// few distinct constant combinations, so that traces share TLC runs
 		buf = []int{2, 4}[w.Choose(sim.KCfg, 2)]
+		if opt.Quick {
+			buf = 2
+		}
 		if nOps > 4 {
 			nOps = 4
 		}
